@@ -1,6 +1,6 @@
 #!/bin/bash
 # usage: show_noise.sh <diff> <prop> ; prints the diff and the check output on the patched copy
 d=$1; p=$2
-tmp=$(mktemp -d); cp -r /repo/repid $tmp/repid; patch -p1 -s -d $tmp -i $d
+tmp=$(mktemp -d); cp -r /repo/repid $tmp/repid; patch -p1 -s -f -d $tmp -i $d
 cd /verif && /venv/bin/python -m sa.check $p --repo $tmp --no-evidence | grep -v "^KNOWN" | cut -c1-700
 rm -rf $tmp
